@@ -32,6 +32,19 @@ Check (C14_memory_location : forall s m,
   (check_naive_type [NInteger; NLabel; NPCOffset] s = Ok tt /\
    memory_location_try_parse s = Ok (Some m)) <-> MemLocSyn s m).
 Check (C14_location : forall s l, location_try_parse s = Ok (Some l) <-> LocSyn s l).
+Check (C14_line : forall raw, forallb (fun c => negb (is_delim c)) raw = true ->
+  match parse_line raw with
+  | None => trim raw = []
+  | Some (Ok cmd) => LineSyn (trim raw) cmd
+  | Some (Err _) => forall cmd, ~ LineSyn (trim raw) cmd
+  | Some (ExitP code) => code = 0 /\ (exists ws, words (trim raw) = str "sudo" :: ws) /\
+                         forall cmd, ~ LineSyn (trim raw) cmd
+  | Some (Panic _) => False
+  end).
+Check (C14_line_iff : forall line cmd, forallb (fun c => negb (is_delim c)) line = true ->
+  (try_from line = Ok cmd <-> LineSyn line cmd)).
+Check (C14_one_command : forall line cmd cmd', forallb (fun c => negb (is_delim c)) line = true ->
+  LineSyn line cmd -> LineSyn line cmd' -> cmd = cmd').
 Print Assumptions C14_int_sound.
 Print Assumptions C14_int_complete.
 Print Assumptions C14_unambiguous.
@@ -45,3 +58,6 @@ Print Assumptions C14_label.
 Print Assumptions C14_value.
 Print Assumptions C14_memory_location.
 Print Assumptions C14_location.
+Print Assumptions C14_line.
+Print Assumptions C14_line_iff.
+Print Assumptions C14_one_command.
